@@ -26,8 +26,8 @@ def build(repo, findings):
     fn = 'program_execute'
     f = interp.method(r'^impl Execute for ast::Program ', 'execute', fn)
     f.r1().r3().r4().r5_self('ast::Program', fn)
-    f.replace('let _ = shell.display_error(&mut params.stderr(shell), &err);\n', '\n', 'R2',
-              'diagnostic to stderr whose result is discarded (`let _ =`) dropped')
+    f.resub(r'^[ \t]*let _ = shell\.display_error\([^;]*\);\n', '', 'R2',
+            'diagnostic to stderr whose result is discarded (`let _ =`) dropped', count=None)
     f.sig(fn, ret='res', ensures=[
         C('aux trace-extends', 'old(shell).trace().is_prefix_of(final(shell).trace())'),
         C('C02 program-never-errs', 'res is Ok'),
